@@ -47,10 +47,42 @@ def mode_of(call):
     return None
 
 
+def check_publish_after_close(ctx, model):
+    """(A') the temporary file is published after it was closed: an os.replace / rename placed
+    inside the ``with open(tmp) as f:`` block that writes it renames a file whose last buffer is
+    still in memory -- a crash (or a reader) right after sees a truncated module under the final
+    name, and when the cut falls between two functions it is valid Python with a matching cookie"""
+    fi = model.fi
+    funcs = [fi] + [f for f in ctx.repo.functions.values() if f.module == fi.module and f is not fi and f.cls is None]
+    n = 0
+    for f in funcs:
+        for w_ in ast.walk(f.node):
+            if not isinstance(w_, ast.With):
+                continue
+            opened = [(it.context_expr, it.optional_vars) for it in w_.items if isinstance(it.context_expr, ast.Call) and call_name(it.context_expr) in ('open', 'io.open', 'os.fdopen')]
+            if not opened:
+                continue
+            for c in [x for b in w_.body for x in ast.walk(b)]:
+                if isinstance(c, ast.Call) and call_name(c) in ('os.replace', 'os.rename', 'shutil.move') and c.args:
+                    for oc, _v in opened:
+                        if oc.args and canon(oc.args[0]) == canon(c.args[0]) and any(ch in (mode_of(oc) or 'r') for ch in WRITE_CH):
+                            n += 1
+                            ctx.violation('R10-atomic-publish', f, '%s inside "with %s"' % (stmt_text(c)[:60], stmt_text(oc)[:40]), 'the file is renamed into place while it is still open for writing: what sits in the write buffer reaches the disk only at the close, after the publication -- a crash in between (or a concurrent import) finds a truncated module under the final name', c.lineno, clause='A', witness=True)
+    # published by a copying primitive: shutil.move falls back to copy + delete across file systems
+    for f in funcs:
+        for c in ast.walk(f.node):
+            if isinstance(c, ast.Call) and call_name(c) in ('shutil.move', 'shutil.copy', 'shutil.copyfile', 'shutil.copy2', 'shutil.copyfileobj'):
+                n += 1
+                ctx.violation('R10-atomic-publish', f, stmt_text(c)[:100], '%s is not an atomic rename: when source and destination are on different file systems (a scratch file in the system temporary folder) the content is copied into place, so a writer that dies -- or a concurrent reader -- meets a partly written module under the final name' % call_name(c), c.lineno, clause='A', witness=True)
+    return n
+
+
 def check_protocol(ctx, model, clauses):
     fi = model.fi
     seen = set()
     node_label = {}
+    if 'A' in clauses:
+        check_publish_after_close(ctx, model)
 
     def once(rule, st, node=None):
         k = (rule, st) if node is None else (rule, id(node))
